@@ -10,7 +10,7 @@ import numpy as np
 from vf.sx.core import cur
 from vf.sx.ob import Case
 
-BK = ["b1", "b2"]
+BK = ["b1", "x_data_2"]          # (a block name may contain the keyword prefix "data_" again)
 CK = ["c1", "c3", "_u"]
 COL = ["x", "w"]
 
